@@ -7,7 +7,7 @@
 From JP Require Import Bytes Json Pointer Rfc6902 ImplV5 ImplFacts.
 
 Theorem C01_get_index : forall o (l : list node) t,
-  len_ok l -> tok_canonical t ->
+  tok_small t -> tok_canonical t ->
   match idx_existing (dia o) (Rfc6902.zlen l) t with
   | Some i => resolve_idx_get o (ImplV5.zlen l) t = Ok i /\ (i < length l)%nat
   | None => exists e, resolve_idx_get o (ImplV5.zlen l) t = Err e /\ (e = EInvalidIndex \/ e = EAtoi)
@@ -16,7 +16,7 @@ Proof. intros. now apply resolve_idx_get_ref. Qed.
 Print Assumptions C01_get_index.
 
 Theorem C01_add_index : forall o (ns : list node) t v,
-  len_ok ns -> add_tok t ->
+  tok_small t -> add_tok t ->
   match idx_insert (dia o) (Rfc6902.zlen ns) t with
   | Some i => ary_add o ns t v = Ok (insert_at i v ns) /\ (i <= length ns)%nat
   | None => exists e, ary_add o ns t v = Err e /\ (e = EInvalidIndex \/ e = EAtoi)
@@ -25,7 +25,7 @@ Proof. exact ary_add_ref. Qed.
 Print Assumptions C01_add_index.
 
 Theorem C01_remove_index : forall o (ns : list node) t,
-  o_allow o = false -> len_ok ns -> tok_canonical t ->
+  o_allow o = false -> tok_small t -> tok_canonical t ->
   match idx_existing (dia o) (Rfc6902.zlen ns) t with
   | Some i => ary_remove o ns t = Ok (remove_at i ns) /\ (i < length ns)%nat
   | None => exists e, ary_remove o ns t = Err e /\ (e = EInvalidIndex \/ e = EAtoi)
